@@ -1,7 +1,7 @@
 package refexp
 
 var Ops = []string{"", ":-", "-", ":=", "=", ":?", "?", ":+", "+", "len", "%", "%%", "#", "##"}
-var Values = []string{"abc", "a b", "a,b:c", "x*y", "日本語", "foo/bar/baz", " lead", "trail,", `a\b\c`, "bz", "]z", "-z", "!z"}
+var Values = []string{"abc", "a b", "a,b:c", "x*y", "日本語", "foo/bar/baz", " lead", "trail,", `a\b\c`, "bz", "]z", "-z", "!z", "a]", "z"}
 var IFSs = []struct {
 	V   string
 	Set bool
@@ -23,6 +23,7 @@ func Words(op string, value string) [][]WP {
 			{{Kind: "lit", Text: "[!"}, {Kind: "sq", Text: "!"}, {Kind: "lit", Text: "]"}},
 			// "$@" joined into one pattern: the separator is quoted text as well
 			{{Kind: "dqat"}}, {{Kind: "lit", Text: "?"}, {Kind: "dqat"}},
+			{{Kind: "lit", Text: "[["}, {Kind: "sq", Text: ":"}, {Kind: "lit", Text: "alpha:]]"}}, {{Kind: "lit", Text: "[["}, {Kind: "dq", Text: ":"}, {Kind: "lit", Text: "z:]"}},
 			// a quoted backslash is an ordinary character of the pattern
 			{{Kind: "sq", Text: `\`}, {Kind: "lit", Text: "*"}}, {{Kind: "lit", Text: "*"}, {Kind: "sq", Text: `\c`}}, {{Kind: "lit", Text: "*"}, {Kind: "dq", Text: `\`}}, {{Kind: "sq", Text: `a\`}},
 		}
